@@ -31,14 +31,14 @@ theorem parse_of_renders {e : Expr N} {ts : List (Token N)} (h : Rn 1 e ts) :
   parsePrec_of_renders h
 
 /-- … and so does the fixed fuel of `parse` (no hypothesis on `e` needed: `Rn` only renders source trees). -/
-theorem parse_renders' {e : Expr N} {ts : List (Token N)} (h : Rn 1 e ts) : parse ts = .ok e := by
+theorem parse_rendering {e : Expr N} {ts : List (Token N)} (h : Rn 1 e ts) : parse ts = .ok e := by
   obtain ⟨f, hf⟩ := parse_of_renders h
   unfold parse
   rw [parsePrec_at_parseFuel hf]
   rfl
 
 theorem parse_renders {e : Expr N} {ts : List (Token N)} (_ : SrcExpr e) (h : Rn 1 e ts) : parse ts = .ok e :=
-  parse_renders' h
+  parse_rendering h
 
 /-- what `Rn` can render is exactly the source-expressible trees (⊆ here, ⊇ is `renderMin_renders`) -/
 theorem renders_src {q : Nat} {e : Expr N} {ts : List (Token N)} (h : Rn q e ts) : SrcExpr e := rn_src h
@@ -82,12 +82,12 @@ theorem reparse_full {ts : List (Token N)} {e : Expr N} (h : parse ts = .ok e) :
 /-- any re-rendering, not just the two executable ones -/
 theorem reparse_any {ts ts' : List (Token N)} {e : Expr N} (_ : parse ts = .ok e) (h' : Rn 1 e ts') :
     parse ts' = .ok e :=
-  parse_renders' h'
+  parse_rendering h'
 
 /-- consequently two renderings of different trees are different token lists -/
 theorem renders_injective {e e' : Expr N} {ts : List (Token N)} (h : Rn 1 e ts) (h' : Rn 1 e' ts) : e = e' := by
-  have h1 := parse_renders' h
-  rw [parse_renders' h'] at h1
+  have h1 := parse_rendering h
+  rw [parse_rendering h'] at h1
   cases h1; rfl
 
 /-! ### 5. tests (concrete inputs; non-vacuity of the statements above) -/
